@@ -15,3 +15,4 @@ def run(ck):
     filt.r8_coefficient_product_width(ck, P, 'C08-R8')
     opacity.r6_outside_is_transparent(ck, P)    # C09-R6: REPEAT_NONE maps outside coordinates to transparent
     sampling.r7_neighbour_before_repeat(ck, P)
+    sampling.r8_rotation_tiles(ck, P)
